@@ -723,7 +723,7 @@ class Node(object):
             self.write_interruption_record(individual)
             individual.original_service_start_date = individual.service_start_date
             individual.service_start_date = False
-            individual.time_left = individual.service_end_date - self.now
+            individual.time_left = max(individual.service_end_date - self.now, 0)
             individual.service_time = self.schedule.preemption
             individual.service_end_date = False
             individual.reneging_date = float("Inf")
